@@ -36,6 +36,21 @@
    Rules is a record of switches, one per cache rule of the code; all TRUE is the code as it is.  Switching one off
    must break CacheCoherent (the teeth configs).
 
+   Named rules (where the model states them / how the driver reports a breach on the real code):
+     R-ENTITLED   the entitled proposer set (and its activity flags) for the children of a block is a function of that block's
+                  committed state only: PoAView / LGView o SyncPOS; a cache entry may only stand in for it (CacheCoherent)
+                  [rejected:<history>:signer-invalid | timestamp-unscheduled | total-score-invalid]
+     R-ORDER      the slot order (seed) for the children of a block is a fact of that block and ITS OWN chain (field cord of
+                  the parent), never of what happens to be the best chain when somebody looks  [rejected:late-cold:..., seeder:...]
+     R-EARLIEST   the packer takes the EARLIEST slot >= now that the validator-side IsTheTime grants the signer
+                  (PackerPlan.slot = S!Schedule, Scheduler!ScheduleIsEarliest)                     [packer:not-earliest-slot]
+     R-BENEFICIARY beneficiary = the staker-registered one if set, else the node's option, else the endorsor
+                  (PackerPlan.benef; the validator insists only on a registered one)  [rejected:...:beneficiary-mismatch]
+     R-UPDATES    packer and validator switch the same proposers off/on before the first tx (ApplyUpd with S!UpdOff/UpdOn
+                  of the slot TAKEN)                                                   [rejected:...:state-root-mismatch]
+     R-PICK       both sides pick the first min(max-block-proposers, MbpCap) endorsed candidates (SatFlags)   [pick-mismatch]
+     R-SKIP       a tx the packer cannot start executing leaves no trace in the block's state (kind "abort")
+
    Validator histories are sequences of the actions below on one node: cold (nothing cached: after Restart / Evict),
    warm on the parent (Validate(parent) before), warm on a sibling (Validate(sibling) first - it reads, and may share,
    the parent's entry), repeated (Validate twice), restarted.  The conflicts ordinal a validator is given does not occur:
